@@ -75,6 +75,45 @@ def default_of(p):
     return {"Int?": "None"}.get(p, TY[p][1])
 
 
+FLOW_PRE = ("class A\n    def ma(fin self) -> Int => 1\nclass B: A\n    def mb(fin self) -> Int => 2\n"
+            "class Src\n    def fi: Int := 1\n    def ff: Float := 1.5\n    def fs: Str := \"s\"\n    def fa: A := A()\n    def fb: B := B()\n"
+            "    def geti(fin self) -> Int => 1\n    def getf(fin self) -> Float => 1.5\n    def gets(fin self) -> Str => \"s\"\n    def geta(fin self) -> A => A()\n    def getb(fin self) -> B => B()\n"
+            "def mki() -> Int => 1\ndef mkf() -> Float => 1.5\ndef mks() -> Str => \"s\"\ndef mka() -> A => A()\ndef mkb() -> B => B()\n"
+            "def vi: Int := 3\ndef vf: Float := 2.5\ndef vs: Str := \"s\"\ndef va: A := A()\ndef vb: B := B()\ndef o := Src()\n")
+# expressions of each type, by kind
+FLOW_EXPR = {
+    "Int": {"literal": "3", "variable": "vi", "operator": "vi * 2", "call": "mki()", "method": "o.geti()", "negated-call": "-mki()", "field": "o.fi", "call-chain": "mka().ma()"},
+    "Float": {"literal": "2.5", "variable": "vf", "operator": "vf * 0.5", "call": "mkf()", "method": "o.getf()", "negated-call": "-mkf()", "field": "o.ff"},
+    "Str": {"literal": "\"s\"", "variable": "vs", "operator": "vs + \"t\"", "call": "mks()", "method": "o.gets()", "field": "o.fs"},
+    "A": {"constructor": "A()", "variable": "va", "call": "mka()", "method": "o.geta()", "field": "o.fa"},
+    "B": {"constructor": "B()", "variable": "vb", "call": "mkb()", "method": "o.getb()", "field": "o.fb"},
+}
+FLOW_OK = {("Int", "Float"), ("B", "A")}
+FLOW_CONFORMING = {"Int": "3", "Float": "2.5", "Str": "\"s\"", "A": "A()", "B": "B()"}
+
+
+def flow_matrix():
+    """value of type S, produced in every way, used where type T is declared: accepted iff S = T or S is a subtype of T"""
+    out = []
+    for T in FLOW_EXPR:
+        for S, kinds in FLOW_EXPR.items():
+            ok = S == T or (S, T) in FLOW_OK
+            for kind, e in kinds.items():
+                progs = {
+                    "implicit-return": "def q() -> %s => %s\n" % (T, e),
+                    "implicit-return-after-statement": "def q() -> %s =>\n    print(1)\n    %s\n" % (T, e),
+                    "explicit-return": "def q() -> %s =>\n    return %s\n" % (T, e),
+                    "initialiser": "def r: %s := %s\n" % (T, e),
+                    "reassignment": "def r: %s := %s\nr := %s\n" % (T, FLOW_CONFORMING[T], e),
+                    "argument": "def take(p: %s) -> Int => 1\ndef r := take(%s)\n" % (T, e),
+                    "method-argument": "class Tk\n    def take(fin self, p: %s) -> Int => 1\ndef r := Tk().take(%s)\n" % (T, e),
+                    "in-function-initialiser": "def q() -> Int =>\n    def r: %s := %s\n    1\n" % (T, e),
+                }
+                for pos, body in progs.items():
+                    out.append(("%s<-%s/%s/%s" % (T, S, kind, pos), FLOW_PRE + body, ok))
+    return out
+
+
 def impl_class(r):
     if r[0] == "ok":
         return "accept"
@@ -148,9 +187,38 @@ def run(chk):
                 chk.report_known(f, "a conforming generated program is rejected: " + msg.split("\n")[0][:160])
             elif len(chk.violations) < 6:
                 chk.violation("input", "a conforming generated program is rejected: " + msg.split("\n")[0][:200], case={"kind": "prog", "text": t}, expected="accept", actual=msg[:800])
+    # declared types of returns, initialisers, reassignments and arguments against values produced in every way
+    flows = flow_matrix()
+    if not thorough:
+        flows = [f for f in flows if "/implicit-return" in f[0] and f[0].endswith("/implicit-return")] + rng.sample(flows, 500)
+    fres = sweep.transpile(chk, [f[1] for f in flows], annotate_both=False)
+    fstats = {"accept_ok": 0, "reject_ok": 0, "inconclusive_inference": 0}
+    for (label, text, ok_), r in zip(flows, fres):
+        got = r[0][0] == "ok"
+        why = None
+        if r[0][0] == "crash":
+            why = "%s: the checker crashes" % label
+        elif got and not ok_:
+            why = "%s: a value of a non-conforming type is ACCEPTED where the declared type is required" % label
+        elif not got and ok_:
+            msg = r[0][1][0]
+            if msg.startswith(("Cannot infer type", "In ")) and "expected a" not in msg.split("\n")[0]:
+                fstats["inconclusive_inference"] += 1
+            else:
+                why = "%s: a conforming value is REJECTED: %s" % (label, " ".join(msg.split())[:200])
+        else:
+            fstats["accept_ok" if got else "reject_ok"] += 1
+        if why:
+            f = chk.known(label) or chk.known(text)
+            if f:
+                chk.report_known(f, why)
+            elif len(chk.violations) < 6:
+                chk.violation("input", why, case={"kind": "prog", "label": label, "text": text}, expected="accept" if ok_ else "reject", actual=str(r[0])[:600])
+    chk.cov["oracle_flows"] = {"spec": "declared type T x type S of the value x how the value is produced (literal, variable, operator result, call, method, negated call, field, call chain) x position (implicit/explicit return, initialiser, reassignment, argument, method argument): accepted iff S = T or S <: T",
+                               "cases": len(flows), "stats": fstats}
     chk.cov["correspondence"] = {"model": "MV.callCheck with MV.isSuperset on the dumped class table (Model/CallConf.lean, Model/Ty.lean) vs the checker's verdict on the call", "evaluations": len(cases) if mod else 0, "agreements": stats}
     chk.cov["oracle"] = {"spec": "verdict on a call/constructor/method call == conformance to the declared signature (arity with defaults, each argument assignable), at every position; well-typed generated programs are accepted",
                          "calls": len(cases), "by_position": by_pos, "generated_programs": len(progs), "over_rejected": over}
-    chk.cov["evaluations"] = len(cases) + len(progs)
+    chk.cov["evaluations"] = len(cases) + len(progs) + len(flows)
     chk.cov["distinct_nontrivial"] = len(set(texts))
     chk.cov["rule"] = "distinct (signature, argument list, position) programs: 0-3 parameters over Int/Float/Str/Bool/classes/Int? with trailing defaults; arguments conforming or with one fault (type, missing, extra); positions top/function/method/constructor/nested/branch/loop; each argument passed as a literal, an inferred local, an annotated local or a function result"
